@@ -119,6 +119,7 @@ def onEvent (cfg : Cfg) (l : Line) (s : St) : Option (List St) :=
     | _ => return []
   | "closecall" => some (step cfg s .closeBegin).toList
   | "closeret" => some (step cfg s .closeReturn).toList
+  | "closeret2" => some (step cfg s .closeAgain).toList
   | "quiet" => some (if (taus cfg s).isEmpty then [s] else [])
   | "unpark" => some [s]
   | "park" => do
@@ -141,6 +142,8 @@ def onEvent (cfg : Cfg) (l : Line) (s : St) : Option (List St) :=
       | "cb", .running r => idOk r
       | "process.resetSent", _ => true
       | "process.tokenTaken", _ => true
+      | "enqueue.afterStoppedCheck", _ => true
+      | "close.afterCAS", _ => true
       | _, _ => false
     return if keep then [s] else []
   | _ => none
@@ -151,6 +154,8 @@ def freezes (cfg : Cfg) (l : Line) : Bool :=
   | some "loop.sawEmpty" => !cfg.fixed
   | some "process.resetSent" => false
   | some "process.tokenTaken" => false
+  | some "enqueue.afterStoppedCheck" => false
+  | some "close.afterCAS" => false
   | some "loop.peeked" => l.get? "none" != some "1" || !cfg.fixed
   | some _ => true
   | none => false
